@@ -153,7 +153,10 @@ fn check_entry(w: &World, e: &Entry, cfg: &HistCfg, st: &mut Stats, printable: b
             Err(er) => return Err(mk("serde/serialize-error", format!("serialising fails: {er}"))),
             Ok(js) => {
                 let js: &'static str = leak(js);
-                match serde_json::from_str::<F>(js) {
+                // borrowed-string path (from_str) or owned-string path (from_reader) of the visitor
+                let owned = js.len() % 2 == 1;
+                let back = if owned { serde_json::from_reader::<_, F>(js.as_bytes()) } else { serde_json::from_str::<F>(js) };
+                match back {
                     Err(er) => return Err(mk("serde/deserialize-error", format!("after {:?}: `{js}` does not deserialise: {er}", w.history))),
                     Ok(g) => {
                         if g.unparse() != e.f.unparse() || g.var_names() != e.f.var_names() {
@@ -190,10 +193,24 @@ pub fn run_history(tape: &[u32], st: &mut Stats, cfg: &HistCfg) -> Result<HistOu
     let mut t = Tape::new(tape);
     let table = gen_table(&mut t, &TableCfg { max_bin: 6, max_un: 4, max_const: 2, ..TableCfg::default() });
     set_table(&table);
-    let pool = gen_var_pool(&mut t, &table, 5, cfg.weird_pct);
+    // one history in twelve works on a wide pool: operands with more than 16 variables each and in their union
+    let wide = t.chance(8);
+    let pool = if wide {
+        let n = 17 + t.choose(10);
+        let names: Vec<String> = (0..n).map(|i| format!("w{:02}", (i * 7) % 31)).collect();
+        let bare_ok = names.iter().map(|n| bare_name_ok(n, &table)).collect();
+        VarPool { names, bare_ok }
+    } else {
+        gen_var_pool(&mut t, &table, 5, cfg.weird_pct)
+    };
     let ti = TableIdx::new(&table);
     let printable = !print_ambiguous(&table);
-    let tcfg = TreeCfg { max_operands: 5, lit_pct: 30, unary_pct: 15, ..TreeCfg::default() };
+    let tcfg = if wide {
+        TreeCfg { max_operands: 40, lit_pct: 8, unary_pct: 5, ..TreeCfg::default() }
+    } else {
+        TreeCfg { max_operands: 5, lit_pct: 30, unary_pct: 15, ..TreeCfg::default() }
+    };
+    st.class_if(wide && pool.names.len() > 16, "pool of more than 16 variables");
     let mut w = World { table: table.clone(), pool: pool.clone(), entries: vec![], history: vec![] };
     let mut out = HistOutcome { steps: 0, n_subs: 0, subs_self_ref: false, subs_repeated_var: false, n_bin_diff_vars: 0, unknown_names: 0, printed_differs: false, printable, world: Value::Null };
     let prop = cfg.prop;
@@ -232,6 +249,41 @@ pub fn run_history(tape: &[u32], st: &mut Stats, cfg: &HistCfg) -> Result<HistOu
         let b = t.choose(w.entries.len());
         let ea = w.entries[a].clone();
         let eb = w.entries[b].clone();
+        // half of the steps consume operands that have just been evaluated and printed (the very
+        // value, no clone in between): evaluation must not leave anything behind in an expression
+        let warm = t.chance(50);
+        let (_, wa) = expected_vars(&ea.tree, &w.pool);
+        let (_, wb) = expected_vars(&eb.tree, &w.pool);
+        let fa = || {
+            let x = ea.f.clone();
+            if warm {
+                let _ = x.eval(&wa);
+                let _ = x.unparse().len();
+            }
+            x
+        };
+        let da = || {
+            let x = ea.d.clone();
+            if warm {
+                let _ = x.eval(&wa);
+                let _ = x.unparse().len();
+            }
+            x
+        };
+        let fb = || {
+            let x = eb.f.clone();
+            if warm {
+                let _ = x.eval(&wb);
+            }
+            x
+        };
+        let db = || {
+            let x = eb.d.clone();
+            if warm {
+                let _ = x.eval(&wb);
+            }
+            x
+        };
         let step: Result<Result<Option<Entry>, String>, String> = match kind {
             0 if !ti.uns.is_empty() => {
                 let o = *t.pick(&ti.uns);
@@ -240,8 +292,8 @@ pub fn run_history(tape: &[u32], st: &mut Stats, cfg: &HistCfg) -> Result<HistOu
                 guard(|| {
                     Ok(Some(Entry {
                         tree: Tree::Un(o, Box::new(ea.tree.clone())),
-                        f: ex_msg(ea.f.clone().operate_unary(name))?,
-                        d: ex_msg(ea.d.clone().operate_unary(name))?,
+                        f: ex_msg(fa().operate_unary(name))?,
+                        d: ex_msg(da().operate_unary(name))?,
                     }))
                 })
             }
@@ -303,7 +355,7 @@ pub fn run_history(tape: &[u32], st: &mut Stats, cfg: &HistCfg) -> Result<HistOu
                             None
                         }
                     };
-                    Ok(Some(Entry { tree, f: ex_msg(ea.f.clone().subs(&mut sf))?, d: ex_msg(ea.d.clone().subs(&mut sd))? }))
+                    Ok(Some(Entry { tree, f: ex_msg(fa().subs(&mut sf))?, d: ex_msg(da().subs(&mut sd))? }))
                 })
             }
             3 => {
@@ -311,8 +363,8 @@ pub fn run_history(tape: &[u32], st: &mut Stats, cfg: &HistCfg) -> Result<HistOu
                 guard(|| {
                     Ok(Some(Entry {
                         tree: ea.tree.clone(),
-                        f: ex_msg(F::from_deepex(ex_msg(ea.f.clone().to_deepex())?))?,
-                        d: ex_msg(ex_msg(F::from_deepex(ea.d.clone()))?.to_deepex())?,
+                        f: ex_msg(F::from_deepex(ex_msg(fa().to_deepex())?))?,
+                        d: ex_msg(ex_msg(F::from_deepex(da()))?.to_deepex())?,
                     }))
                 })
             }
@@ -326,10 +378,10 @@ pub fn run_history(tape: &[u32], st: &mut Stats, cfg: &HistCfg) -> Result<HistOu
                     w.history.push(format!("operate with unknown name `{name}` on #{a}"));
                     let r = guard(|| {
                         (
-                            ea.f.clone().operate_unary(name).is_ok(),
-                            ea.d.clone().operate_unary(name).is_ok(),
-                            ea.f.clone().operate_binary(eb.f.clone(), name).is_ok(),
-                            ea.d.clone().operate_binary(eb.d.clone(), name).is_ok(),
+                            fa().operate_unary(name).is_ok(),
+                            da().operate_unary(name).is_ok(),
+                            fa().operate_binary(fb(), name).is_ok(),
+                            da().operate_binary(db(), name).is_ok(),
                         )
                     });
                     match r {
@@ -355,14 +407,14 @@ pub fn run_history(tape: &[u32], st: &mut Stats, cfg: &HistCfg) -> Result<HistOu
                 };
                 w.history.push(format!("#{} = DeepEx::{name}() on #{a}", w.entries.len()));
                 let r = guard(|| match name {
-                    "sin" => ea.d.clone().sin(),
-                    "cos" => ea.d.clone().cos(),
-                    "ln" => ea.d.clone().ln(),
-                    "log" => ea.d.clone().log(),
-                    "abs" => ea.d.clone().abs(),
-                    "sinh" => ea.d.clone().sinh(),
-                    "log2" => ea.d.clone().log2(),
-                    _ => ea.d.clone().log10(),
+                    "sin" => da().sin(),
+                    "cos" => da().cos(),
+                    "ln" => da().ln(),
+                    "log" => da().log(),
+                    "abs" => da().abs(),
+                    "sinh" => da().sinh(),
+                    "log2" => da().log2(),
+                    _ => da().log10(),
                 });
                 match (r, idx) {
                     (Err(p), _) => Err(p),
@@ -382,12 +434,12 @@ pub fn run_history(tape: &[u32], st: &mut Stats, cfg: &HistCfg) -> Result<HistOu
                 let idx = table.iter().position(|o| o.name == name && if sym == "neg" { o.unary } else { o.bin.is_some() });
                 w.history.push(format!("#{} = overloaded `{sym}` on deep #{a}{}", w.entries.len(), if sym == "neg" { String::new() } else { format!(", #{b}") }));
                 let r = guard(|| match sym {
-                    "-" => ea.d.clone() - eb.d.clone(),
-                    "&" => ea.d.clone() & eb.d.clone(),
-                    "|" => ea.d.clone() | eb.d.clone(),
-                    "^" => ea.d.clone() ^ eb.d.clone(),
-                    "%" => ea.d.clone() % eb.d.clone(),
-                    _ => -ea.d.clone(),
+                    "-" => da() - db(),
+                    "&" => da() & db(),
+                    "|" => da() | db(),
+                    "^" => da() ^ db(),
+                    "%" => da() % db(),
+                    _ => -da(),
                 });
                 match (r, idx) {
                     (Err(p), _) => Err(p),
@@ -415,8 +467,8 @@ pub fn run_history(tape: &[u32], st: &mut Stats, cfg: &HistCfg) -> Result<HistOu
                 guard(|| {
                     Ok(Some(Entry {
                         tree: Tree::Bin(o, Box::new(ea.tree.clone()), Box::new(eb.tree.clone())),
-                        f: ex_msg(ea.f.clone().operate_binary(eb.f.clone(), name))?,
-                        d: ex_msg(ea.d.clone().operate_binary(eb.d.clone(), name))?,
+                        f: ex_msg(fa().operate_binary(fb(), name))?,
+                        d: ex_msg(da().operate_binary(db(), name))?,
                     }))
                 })
             }
